@@ -139,6 +139,9 @@ def structured_inputs(d: int):
         ins.append((f"text-escape-long:{n}", org + ".table 't15.tbl'\n.text 'ab[0x" + "a1" * (n // 2) + "]b'\n"))
     ins.append(("text-many-open-brackets", org + ".table 't15.tbl'\n.text '" + "[0x" * d + "'\n"))
     ins.append(("text-long-string", org + ".table 't15.tbl'\n.text '" + "abc[0x41]" * (4 * d) + "'\n"))
+    # patch files that end early (no EOF footer, cut inside a header / a size / the data, header only, empty): reported, never read forever
+    for nm in ("cut_header_only.ips", "cut_after_record.ips", "cut_in_offset.ips", "cut_in_size.ips", "cut_in_data.ips", "cut_in_rle.ips", "empty.ips"):
+        ins.append((f"short-ips:{nm}", org + f".db 1\n.include_ips '{nm}', 0\n.db 2\n"))
     for where in ("relative", "nested", "absolute"):
         for j, d_ in enumerate((".include 'no_such_file_zz.s'", ".incbin 'no_such_file_zz.bin'", ".table 'no_such_file_zz.tbl'", ".include_ips 'no_such_file_zz.ips', 0",
                                 ".include 'sub/dir/no_such_file_zz.s'", ".include '../no_such_file_zz.s'")):
@@ -324,7 +327,12 @@ def run_case(case) -> Outcome:
         return out
     if t == "structured":
         nt = 0
-        driver.write_files({"t15.tbl": "01=a\n02=b\n03=ab\n0405=abc\n"})
+        rec = b"\x02\x00\x00\x00\x03abc"
+        driver.write_files({"t15.tbl": "01=a\n02=b\n03=ab\n0405=abc\n",
+                            "cut_header_only.ips": {"hex": b"PATCH".hex()}, "cut_after_record.ips": {"hex": (b"PATCH" + rec).hex()},
+                            "cut_in_offset.ips": {"hex": (b"PATCH" + rec + b"\x02\x00").hex()}, "cut_in_size.ips": {"hex": (b"PATCH" + rec + b"\x02\x00\x10\x00").hex()},
+                            "cut_in_data.ips": {"hex": (b"PATCH" + rec[:-1]).hex()}, "cut_in_rle.ips": {"hex": (b"PATCH" + b"\x02\x00\x00\x00\x00\x00").hex()},
+                            "empty.ips": {"hex": ""}})
         deep_dir = os.path.join(driver.workdir(), "a", "b", "c", "d")
         for name, text in structured_inputs(case["depth"]):
             kb = int(name.rsplit("bound=", 1)[1]) if "bound=" in name else None  # iteration count known by construction
